@@ -1290,8 +1290,10 @@ void mmd_pair_tokens_in_block(token * block, token_pair_engine * e, stack * s) {
 
 		case BLOCK_LIST_ITEM:
 		case BLOCK_LIST_ITEM_TIGHT:
+			// (This descends into the blocks inside the item as well -- walking
+			// them a second time would let an opener that was passed over pair
+			// with a later closer across an existing pair)
 			token_pairs_match_pairs_inside_token(block, e, s, 0);
-			mmd_pair_tokens_in_chain(block->child, e, s);
 			break;
 
 		case LINE_TABLE:
